@@ -329,6 +329,29 @@ def evaluate(case, native):
         if not accepted and (ld is None or td1 <= ld) and (lt is None or tdur1 <= lt) and case.get('check_exact'):
             return True, f'limit gate rejected an insertion that keeps distance {td1} and duration {tdur1} within the limits'
         return False, 'limit decision agrees with the simulation'
+    if kind == 'simple_objectives':
+        for name, r in native.items():
+            delta = r['fitness_after'] - r['fitness_before']
+            if r['estimate_route'] != delta:
+                return True, (f"{name}: quoted route-level estimate {r['estimate_route']} but the objective changes by {delta} "
+                              f"({r['fitness_before']} -> {r['fitness_after']}) when the job is assigned to a route with {len(jobs)} jobs")
+            if r['estimate_activity'] != 0:
+                return True, f"{name}: activity-level estimate {r['estimate_activity']} (expected 0: the objective does not depend on the position)"
+        return False, 'estimates equal the objective changes'
+    if kind == 'route_gates':
+        tws = case['route_job']['tws']
+        s0, s1 = val(case['shift_start']), val(case['shift_end'])
+        inter = any(val(a) <= s1 and s0 <= val(b) for a, b in tws)
+        lim = case.get('size_limit')
+        k = len(jobs)
+        exp = {'evaluate_job_transport': inter, 'evaluate_size_single': lim is None or k + 1 <= lim,
+               'evaluate_size_multi': lim is None or k + 2 <= lim}
+        for key, want in exp.items():
+            got = native[key] is None
+            if got != want:
+                return True, (f'{key}: accepted={got}, expected {want} (tour of {k} job activities, {native.get("tour_job_count")} distinct jobs, '
+                              f'size limit {lim}, shift [{s0},{s1}], job windows {tws})')
+        return False, 'route-level verdicts agree with the reference'
     return None, f'no native evaluation for obligation kind {kind}'
 
 
